@@ -129,6 +129,16 @@ CHECKS = {
             "the repo's schema.",
             "Trusted: reference rules transcribed from docs/tests inside checks/c13.py; jsonschema for PLANNER_V1.",
             "DESIGN.md §3 C13"),
+    "C14": ("exploration",
+            "exhaustive leaf-wise enumeration over a frozen v1 key/range table + Hypothesis structural generation + cross-PYTHONHASHSEED child interpreters + real CLI subprocesses + runnability turns + atheris byte target",
+            "Every leaf of a frozen table (~200 leaves, transcribed from the docs, not read from the validator) x every value class "
+            "(valid/boundary/outside/wrong type/NaN/inf/10**400), sections replaced by scalars/lists, unknown and non-string keys; "
+            "Hypothesis combinations of 0-8 leaf assignments + structural edits: outcome in {dict, ConfigError}, input deep-unchanged "
+            "(container identity), all API variants + in-process CLI + real `python -m clematis validate` subprocesses agree on verdict/"
+            "messages/normalised dict, identical across PYTHONHASHSEED 0/1/2/random; accepted => documented ranges, enums and cross-field "
+            "rules hold (NaN satisfies none) and two real turns on a non-trivial world run without raising.",
+            "Trusted: the frozen range table inside checks/c14.py; network-reaching configs (llm+ollama) counted and skipped.",
+            "DESIGN.md §3 C14"),
     "C15": ("exploration",
             "exhaustive breadth-first closure over reachable (model, implementation) states for every container + Hypothesis rule-based machines + multi-threaded rounds with schedule-independent oracles + merge determinism properties",
             "Nine containers (LRUBytes, _NamespaceCache/LRUCache/CacheManager with injected clock, DeterministicLRU/Set, ring LRU, "
